@@ -1,3 +1,22 @@
-import GffProofs.Lemmas.SplitJoin
-open GffProofs
-#print axioms split_join
+import GffProofs.Props.C04
+open GffProofs.C04
+#print axioms incr_spec
+#print axioms id_first_present
+#print axioms multi_valued_rejected
+#print axioms id_field_spec
+#print axioms id_callable_plain
+#print axioms id_callable_auto
+#print axioms id_callable_falsy
+#print axioms id_dict_entry
+#print axioms id_dict_missing
+#print axioms id_default
+#print axioms default_numbering
+#print axioms insert_nodup
+#print axioms insert_dup_rejected
+#print axioms fileFeature_nodup
+#print axioms populateGff_nodup
+#print axioms populateGtf_nodup
+#print axioms getitem_exact
+#print axioms getitem_absent
+#print axioms getitem_id
+#print axioms default_spec_gff
